@@ -32,7 +32,7 @@ for d in sorted(glob.glob(os.path.join(root, '*/'))):
         'files': a.get('files'),
         'demo': a.get('demo'),
         'written_by': 'independent sub-agent given only the property text and a scratch worktree of /repo',
-        'agent_ran': a.get('ran'),
+        'agent_ran': a.get('ran') or a.get('agent_ran'),
         'confirmed_by_me': {
             'how': 'tools/confirm_seed.sh in a scratch git worktree of /repo: demo passes on the unchanged tree; patch applies; go build ./... ok; '
                    'go test -vet=off -count=1 ./... passes with the patch; demo fails with the patch; worktree removed afterwards',
